@@ -66,8 +66,14 @@ def write_tmp(text, name="m.cmake", newline=""):
     return p
 
 
-def document_text(text, settings=None, title="Title", module="mod.name", raw=False):
-    """returns dict(page=str|None, error=str|None, etype=str|None, log=str)"""
+FIXED_MTIME = 1_700_000_000
+
+
+def document_text(text, settings=None, title="Title", module="mod.name", raw=False, mtime=None):
+    """returns dict(page=str|None, error=str|None, etype=str|None, log=str, tree=<parse tree the Documenter walked>|None)
+    Every call of one process writes the same path (<run dir>/<pid>/m.cmake): a file that is rewritten between two
+    documentation runs is the normal case here.  mtime: pin the file's modification time (a rewrite within the
+    granularity of the clock)."""
     common.bind_impl()
     from cminx.documenter import Documenter
     if raw:
@@ -76,19 +82,28 @@ def document_text(text, settings=None, title="Title", module="mod.name", raw=Fal
             f.write(text)
     else:
         p = write_tmp(text)
+    if mtime is not None:
+        os.utime(p, (mtime, mtime))
     settings = settings if settings is not None else base_settings()
+    seen = {}
     with common.quiet() as q:
         try:
             d = Documenter(p, title, module, settings)
+            orig = getattr(getattr(d, "parser", None), "cmake_file", None)
+            if callable(orig):
+                def spy():
+                    seen["tree"] = orig()
+                    return seen["tree"]
+                d.parser.cmake_file = spy
             w = d.process()
             page = w.to_text()
             return {"page": page, "error": None, "etype": None, "log": q.out.getvalue() + q.err.getvalue(),
-                    "documenter": d}
+                    "documenter": d, "tree": seen.get("tree")}
         except BaseException as e:  # SystemExit included: a pipeline that exits is a failure to document
             if isinstance(e, (KeyboardInterrupt, MemoryError)):
                 raise
             return {"page": None, "error": f"{type(e).__name__}: {e}"[:500], "etype": type(e).__name__,
-                    "log": q.out.getvalue() + q.err.getvalue(), "documenter": None}
+                    "log": q.out.getvalue() + q.err.getvalue(), "documenter": None, "tree": None}
 
 
 def parse_tree(text):
